@@ -73,11 +73,14 @@ func panicOp(c *Ctx, op string) {
 		hopts = append(hopts, connect.WithInterceptors(&logIcpt{id: 20 + i, log: log}))
 	}
 	pv := panicValueFor(class, a["val"])
+	declined := connect.NewError(connect.CodeResourceExhausted, errors.New("declined"))
 	maybePanic := func(point string) {
-		if class != "none" && a["point"] == point {
+		if class != "none" && class != "fail" && a["point"] == point {
 			panic(pv) //nolint
 		}
 	}
+	// class "fail": the handler returns an ordinary error at that point, without panicking
+	failHere := func(point string) bool { return class == "fail" && a["point"] == point }
 	var h http.Handler
 	switch a["kind"] {
 	case "unary":
@@ -85,24 +88,42 @@ func panicOp(c *Ctx, op string) {
 			maybePanic("before")
 			maybePanic("between")
 			maybePanic("after")
+			if class == "fail" {
+				return nil, declined
+			}
 			return connect.NewResponse(&wrapperspb.Int64Value{Value: 1}), nil
 		}, hopts...)
 	case "client":
 		h = connect.NewClientStreamHandler("/s/m", func(ctx context.Context, s *connect.ClientStream[wrapperspb.Int64Value]) (*connect.Response[wrapperspb.Int64Value], error) {
 			maybePanic("before")
+			if failHere("before") {
+				return nil, declined
+			}
 			for s.Receive() {
 			}
 			maybePanic("between")
 			maybePanic("after")
+			if class == "fail" {
+				return nil, declined
+			}
 			return connect.NewResponse(&wrapperspb.Int64Value{Value: 1}), nil
 		}, hopts...)
 	case "server":
 		h = connect.NewServerStreamHandler("/s/m", func(ctx context.Context, req *connect.Request[wrapperspb.Int64Value], s *connect.ServerStream[wrapperspb.Int64Value]) error {
 			maybePanic("before")
+			if failHere("before") {
+				return declined
+			}
 			_ = s.Send(&wrapperspb.Int64Value{Value: 1})
 			maybePanic("between")
+			if failHere("between") {
+				return declined
+			}
 			_ = s.Send(&wrapperspb.Int64Value{Value: 2})
 			maybePanic("after")
+			if class == "fail" {
+				return declined
+			}
 			return nil
 		}, hopts...)
 	case "bidi":
@@ -113,10 +134,19 @@ func panicOp(c *Ctx, op string) {
 					break
 				}
 			}
+			if failHere("before") {
+				return declined
+			}
 			_ = s.Send(&wrapperspb.Int64Value{Value: 1})
 			maybePanic("between")
+			if failHere("between") {
+				return declined
+			}
 			_ = s.Send(&wrapperspb.Int64Value{Value: 2})
 			maybePanic("after")
+			if class == "fail" {
+				return declined
+			}
 			return nil
 		}, hopts...)
 	}
@@ -180,6 +210,10 @@ func panicOp(c *Ctx, op string) {
 		if len(calls) != 0 || callErr != nil {
 			c.Fail("recover-disturbs", op, ans, "a call that does not panic was affected by WithRecover")
 		}
+	case "fail":
+		if len(calls) != 0 || callErr == nil || connect.CodeOf(callErr) != connect.CodeResourceExhausted {
+			c.Fail("recover-disturbs", op, ans, "a handler that returns an error without panicking was affected by WithRecover: the recovery function must not run and the client gets the handler's own error")
+		}
 	case "abort":
 		if len(calls) != 0 || !ic.panicked || ic.panicValue != http.ErrAbortHandler { //nolint
 			c.Fail("recover-abort", op, ans, "http.ErrAbortHandler must be re-raised untouched, without calling the recovery function")
@@ -197,7 +231,7 @@ func panicOp(c *Ctx, op string) {
 		}
 	}
 	// interceptors declared before the recover interceptor see the converted error (their exit runs)
-	if class != "none" && class != "abort" {
+	if class != "none" && class != "abort" && class != "fail" {
 		if n := strings.Count(strings.Join(log.events, " "), "out:1"); n != atoi(a["pre"]) {
 			c.Fail("recover-position", op, strings.Join(log.events, " "), "interceptors declared before WithRecover must see the call return normally with the converted error")
 		}
@@ -228,7 +262,7 @@ func streamPanic(c *Ctx) {
 	protos := []string{"connect", "grpc", "grpcweb"}
 	points := []string{"before", "between", "after"}
 	vals := map[string][]string{
-		"none": {"-"}, "nil": {"-"}, "abort": {"-"},
+		"none": {"-"}, "nil": {"-"}, "abort": {"-"}, "fail": {"-"},
 		"other": {"error", "string", "struct", "wrapped-abort", "coded", "int"},
 	}
 	for _, kind := range kinds {
@@ -237,7 +271,7 @@ func streamPanic(c *Ctx) {
 			api = "unary"
 		}
 		for _, proto := range protos {
-			for _, class := range []string{"none", "nil", "abort", "other"} {
+			for _, class := range []string{"none", "fail", "nil", "abort", "other"} {
 				for _, val := range vals[class] {
 					for _, point := range points {
 						if class == "none" && point != "before" {
